@@ -18,7 +18,9 @@ RULE = ("cases: pk x (bytes_to_tuples, then tuples_to_bytes of it; full bytes co
         "never compared with the model. exhaustive: pk lines for {0..3}<=6,{0..5}<=5,{0..15}<=3,{0,255}<=8,boundary symbols<=4; exh "
         "quick {0..3}<=9,{0..5}<=7,{0..15}<=5,{0,255}<=12 / thorough {0..3}<=11,{0..5}<=9,{0..15}<=7 (model+impl) and {0..15}=8 "
         "(impl only, oracle); ref exhaustive over {0,1}<=12 and {0,1,4}<=8 (both sides of 1/2 incl. equality); random "
-        "periodic/mutated strings up to 100 kB. non-trivial = non-empty input and a non-error answer; distinct = distinct case line")
+        "periodic/mutated strings up to 100 kB. extra: 4 (quick) / 48 (thorough) archives written by the real CLI, every ref/delta "
+        "part re-derived by the model's store_ref_part/store_pack_part with the zstd oracle pinned to the real frame and read "
+        "by load_part (coverage.archive_parts counts each of the 4 ref and 2 pack outcomes). non-trivial = non-empty input and a non-error answer; distinct = distinct case line")
 TRUSTED = ["zstd (libzstd via zstd-safe) as oracle: Section hypotheses zd (zc l x) = Some x and x <> [] -> zc l x <> [], "
            "exercised on every ref/dlt/mk/hist case; compress never fails with a compressBound-sized buffer",
            "f64 vs exact rational agreement of check_repetitiveness: argued in coq/model/SegCompress.v, tested on both sides of 1/2",
